@@ -6,12 +6,15 @@
      ef <emit_start> <emit_end> <accept 0|1> <len,len,..|->    static emit_front on an iov_state holding these pieces
      eb <emit_start> <emit_end> <accept 0|1> <len,len,..|->    static emit_back
          reply: ret=<r> start=<emit_start> end=<emit_end> call=<count>:<offset>:<len>:<l1,l2,..> | call=none
-     sc <ws> <id> <cl> <ba> <nn> <ns> <sl> <sstep> <sv> <nt> <shift>
+     rs <custom 0|1> <variant> <emit_start> <emit_end>     reset (variant 0 flatcc_builder_reset, 1..3 flatcc_builder_custom_reset
+         with set_defaults / reduce_buffers / both) of a builder with a custom or the default emitter: reply start=<s> end=<e>
+     sc <ws> <id> <cl> <ba> <nn> <ns> <sl> <sstep> <sv> <nt> <shift> [<reset variant>]
          a builder scenario (strings, byte / u64 vectors, offset vectors, nn nested buffers, nt tables with distinct
          vtables, root table) run (1) with a recording custom emitter that checks the stream-shape invariants on every
          emit call and keeps the stream in address order, (2) with the default emitter: get_direct_buffer, copy_buffer,
-         finalize_buffer, finalize_aligned_buffer compared with the recorded stream; then flatcc_builder_reset and the
-         same again with every size shifted by <shift> (reuse of the page pool).
+         finalize_buffer, finalize_aligned_buffer compared with the recorded stream; then BOTH builders are reset (same
+         variant) and reused: round B with every size shifted by <shift>, round C with the sizes of round A. The recorder
+         starts every round from origin 0, so a reset that does not rewind the address range shows as a shape violation.
      big str <len>        one create_string of <len> bytes through a recording emitter that does not read the data
      big fill <len> <n>   up to n create_string of <len> bytes each until the builder refuses
      big vt <n>           up to n create_vtable of 65534 bytes each (clustered: back emits) until the builder refuses
@@ -128,17 +131,31 @@ static int build(flatcc_builder_t *B, const struct par *p) {
     return 0;
 }
 
-static void scenario_round(flatcc_builder_t *Bd, const struct par *p, const char *tag, int print_trace) {
-    flatcc_builder_t Br; struct rec r; int rc; size_t rsize;
-    /* (1) recording emitter */
-    rec_init(&r, 1); r.want_trace = print_trace;
-    flatcc_builder_custom_init(&Br, rec_emit, &r, 0, 0);
+static void rec_rewind(struct rec *r) {
+    r->start = r->end = 0; r->calls = 0; r->bad[0] = 0; r->lo = r->hi = r->cap / 2; r->tlen = 0; if (r->trace) r->trace[0] = 0;
+}
+static unsigned long stream_sum(const uint8_t *p, size_t n) { unsigned long h = 2166136261u; size_t i; for (i = 0; i < n; ++i) h = ((h ^ p[i]) * 16777619u) & 0xffffffffu; return h; }
+static int do_reset(flatcc_builder_t *B, int variant) {
+    switch (variant) {
+    case 1: return flatcc_builder_custom_reset(B, 1, 0);
+    case 2: return flatcc_builder_custom_reset(B, 0, 1);
+    case 3: return flatcc_builder_custom_reset(B, 1, 1);
+    default: return flatcc_builder_reset(B);
+    }
+}
+
+static void scenario_round(flatcc_builder_t *Brp, struct rec *rp, flatcc_builder_t *Bd, const struct par *p, const char *tag, int print_trace) {
+#define Br (*Brp)
+#define r (*rp)
+    int rc; size_t rsize;
+    /* (1) recording emitter on the reused builder, fresh origin */
+    rec_rewind(&r); r.want_trace = print_trace;
     rc = build(&Br, p);
     rsize = r.hi - r.lo;
-    printf("%s:rec rc=%d calls=%ld shape=%s start=%lld end=%lld rsize=%lu bsize=%lu", tag, rc, r.calls, r.bad[0] ? r.bad : "ok",
-           r.start, r.end, (unsigned long)rsize, (unsigned long)flatcc_builder_get_buffer_size(&Br));
+    printf("%s:rec rc=%d calls=%ld shape=%s start=%lld end=%lld rsize=%lu bsize=%lu bstart=%ld bend=%ld sum=%lu", tag, rc, r.calls, r.bad[0] ? r.bad : "ok",
+           r.start, r.end, (unsigned long)rsize, (unsigned long)flatcc_builder_get_buffer_size(&Br),
+           (long)flatcc_builder_get_buffer_start(&Br), (long)flatcc_builder_get_buffer_end(&Br), stream_sum(r.buf + r.lo, rsize));
     if (print_trace) printf(" trace=%s", r.tlen ? r.trace : "-");
-    flatcc_builder_clear(&Br);
     /* (2) default emitter */
     rc = build(Bd, p);
     {
@@ -159,7 +176,8 @@ static void scenario_round(flatcc_builder_t *Bd, const struct par *p, const char
                !afin ? "-" : ((uintptr_t)afin % (al ? al : 1)) == 0 ? "ok" : "misaligned");
         flatcc_builder_aligned_free(afin);
     }
-    rec_free(&r);
+#undef Br
+#undef r
 }
 
 static long long parse_ll(const char *s) { return strtoll(s, 0, 10); }
@@ -189,21 +207,32 @@ int main(void) {
             else printf(" call=none");
             printf("\n");
             flatcc_builder_clear(&B); rec_free(&r);
-        } else if (n == 12 && !strcmp(t[0], "sc")) {
-            struct par p, q; flatcc_builder_t Bd; int shift = atoi(t[11]);
+        } else if ((n == 12 || n == 13) && !strcmp(t[0], "sc")) {
+            struct par p, q; flatcc_builder_t Bd, Br; struct rec r; int shift = atoi(t[11]), rv = n == 13 ? atoi(t[12]) : 0, x, y;
             p.ws = atoi(t[1]); p.idf = atoi(t[2]); p.cl = atoi(t[3]); p.ba = atoi(t[4]); p.nn = atoi(t[5]); p.ns = atoi(t[6]);
             p.sl = atoi(t[7]); p.sstep = atoi(t[8]); p.sv = atoi(t[9]); p.nt = atoi(t[10]);
             q = p; q.sl += shift; q.sv += shift; if (q.sl < 0) q.sl = 0; if (q.sv < 0) q.sv = 0;
             flatcc_builder_init(&Bd);
-            scenario_round(&Bd, &p, "A", 1);
-            flatcc_builder_reset(&Bd);
-            printf(" | ");
-            scenario_round(&Bd, &q, "B", 0);
-            flatcc_builder_reset(&Bd);
-            printf(" | ");
-            scenario_round(&Bd, &p, "C", 0);
+            rec_init(&r, 1);
+            flatcc_builder_custom_init(&Br, rec_emit, &r, 0, 0);
+            scenario_round(&Br, &r, &Bd, &p, "A", 1);
+            x = do_reset(&Bd, rv); y = do_reset(&Br, rv);
+            printf(" | reset=%d,%d | ", x, y);
+            scenario_round(&Br, &r, &Bd, &q, "B", 0);
+            x = do_reset(&Bd, rv); y = do_reset(&Br, rv);
+            printf(" | reset=%d,%d | ", x, y);
+            scenario_round(&Br, &r, &Bd, &p, "C", 0);
             printf("\n");
-            flatcc_builder_clear(&Bd);
+            flatcc_builder_clear(&Bd); flatcc_builder_clear(&Br); rec_free(&r);
+        } else if (n == 5 && !strcmp(t[0], "rs")) {
+            flatcc_builder_t B; struct rec r; int custom = atoi(t[1]), rc;
+            rec_init(&r, 0);
+            if (custom) flatcc_builder_custom_init(&B, rec_emit, &r, 0, 0); else flatcc_builder_init(&B);
+            B.emit_start = (flatcc_builder_ref_t)parse_ll(t[3]); B.emit_end = (flatcc_builder_ref_t)parse_ll(t[4]);
+            rc = do_reset(&B, atoi(t[2]));
+            printf("rc=%d start=%ld end=%ld size=%lu\n", rc, (long)flatcc_builder_get_buffer_start(&B), (long)flatcc_builder_get_buffer_end(&B),
+                   (unsigned long)flatcc_builder_get_buffer_size(&B));
+            flatcc_builder_clear(&B); rec_free(&r);
         } else if (n >= 3 && !strcmp(t[0], "big")) {
             flatcc_builder_t B; struct rec r; static char small[16]; long k = 0, cnt = 1; long long a = parse_ll(t[2]);
             rec_init(&r, 0);
